@@ -9,7 +9,7 @@ import os
 from . import bootstrap  # noqa: F401
 from . import instrument as ins
 from .core import digest_of, HarnessError
-from .model import LinkModel, ModelRefuse, Unknown, any_close, BUFFERING, F
+from .model import LinkModel, ModelRefuse, Unknown, any_close, BUFFERING, F, UNIT_TABLE, convert
 from .world import dt, td, tick, make_adapter, mag
 
 import numpy as np
@@ -17,20 +17,6 @@ import finam as fm
 from finam import Info, NoGrid, Input, Output
 from finam.errors import FinamTimeError, FinamNoDataError, FinamDataError, FinamMetaDataError
 from finam.data.tools import UNITS
-
-# unit catalogue for link traffic: (factor to SI of its dimension, offset)
-UNIT_TABLE = {"": (1.0, 0.0), "m": (1.0, 0.0), "km": (1000.0, 0.0), "mm": (0.001, 0.0), "cm": (0.01, 0.0),
-              "s": (1.0, 0.0), "m/s": (1.0, 0.0), "mm/d": (0.001 / 86400.0, 0.0), "m s": (1.0, 0.0),
-              "mm s": (0.001, 0.0), "K": (1.0, 0.0), "degC": (1.0, 273.15)}
-
-
-def convert(v, u_from, u_to):
-    if u_from == u_to or u_to is None:
-        return v
-    f1, o1 = UNIT_TABLE[u_from]
-    f2, o2 = UNIT_TABLE[u_to]
-    return ((v + o1 / f1 * 1.0) * f1 - o2) / f2 if (o1 or o2) else v * f1 / f2
-
 
 class Rig:
     def __init__(self, sc, scratch=None):
